@@ -152,6 +152,11 @@ class Engine(GenericConcreteEngine[Callable[..., Any]]):
                     return transfer.reapply(operation.apply(target)), True, ()
                 else:
                     upstream, done, messages = target.engine.backtrack_unary(operation, target, preferred)
+                    if upstream is target:
+                        # Nothing was inserted upstream; return the tree itself
+                        # (reapply would make a new Transfer if this one has a
+                        # payload, which callers would mistake for a change).
+                        return tree, done, messages
                     return (transfer.reapply(upstream), done, messages)
         raise NotImplementedError(f"Unsupported relation type {tree} for engine {self}.")
 
